@@ -12,7 +12,7 @@ Print Assumptions C18_discipline.
 
 Theorem C18_discipline_forall : forall g a, In g guards -> In a field_accesses ->
   fa_type a = g_type g -> In (fa_field a) (g_fields g) ->
-  In (g_mutex g) (fa_locks a) \/ In (fa_func a) (g_exempt g) \/ In (fa_func a) (g_helpers g).
+  In (g_mutex g) (fa_locks a) \/ In (fa_func a) (g_exempt g) \/ In (fa_func a) (helpers_of g).
 Proof. exact Discipline.discipline_forall. Qed.
 Print Assumptions C18_discipline_forall.
 
